@@ -193,6 +193,10 @@ class Ctx:
                 log("  monitor %s failed: %s" % (f["monitor"], json.dumps(f["detail"], default=str)[:400]))
             log("VIOLATION property=%s replay=%s" % (self.prop, replay))
             rc = 1
+        if self.divergences:
+            os.makedirs(REPLAYS, exist_ok=True)
+            with open(os.path.join(REPLAYS, "%s_%s_%d_divergences.json" % (self.prop, self.tier, self.seed)), "w") as fh:
+                json.dump({"property": self.prop, "failures": [{"monitor": "DIVERGENCE", "detail": d} for d in self.divergences[:100]]}, fh, indent=1, default=str)
         for d in self.divergences[:3]:
             log("DIVERGENCE (model vs code, not a verdict): %s" % json.dumps(d, default=str)[:300])
         cov = dict(self.cov)
